@@ -307,7 +307,7 @@ int assemble_code(
     return -1;
   }
 
-  uint32_t address;
+  uint64_t address;
 
   for (address = asm_context.memory.low_address;
        address <= asm_context.memory.high_address;
